@@ -292,7 +292,7 @@ def c_picker_idx(site, fx):
 
 def c_picker_scores(site, fx):
     # scores[i] (len 255) indexed by positions of the move list (len <= 218)
-    return site.family == "bounds" and in_fn(site, "MovePicker::next", "MovePicker::next_best_move")
+    return site.family == "bounds" and "move_picker::MovePicker::" in bn(site)
 
 
 def c_picker_unreachable(site, fx):
@@ -366,7 +366,7 @@ def c_magic_lookup(site, fx):
 
 def c_magic_shift(site, fx):
     # (..) >> (64 - bits): constant 64 - 9 / 64 - 12
-    return site.family == "arith" and in_fn(site, "magics::table_index_rook", "magics::table_index_bishop")
+    return site.family == "arith" and "tables::magics::" in bn(site) and "index" in bn(site).split("::")[-1]
 
 
 def c_move_flags(site, fx):
